@@ -49,7 +49,9 @@ def index(x, key):
     where_negative_step = []
     for i, ia in enumerate(idx.args):
         if isinstance(ia, ndindex.Slice) and ia.step < 0:
-            where_negative_step.append(i)
+            # the flip is applied to the result, which has lost the dimensions indexed by an integer
+            n_int = sum(isinstance(ib, ndindex.Integer) for ib in idx.args[:i])
+            where_negative_step.append(i - n_int)
             pos_slice = _convert_slice_with_negative_step(selection[i], x.shape[i])
             selection[i] = pos_slice
     where_negative_step = tuple(where_negative_step)
